@@ -66,6 +66,16 @@ func ValidateCreator(creator string) error {
 	return nil
 }
 
+// ValidateProviders verifies that every provider is a legal address
+func ValidateProviders(providers []string) error {
+	for _, provider := range providers {
+		if _, err := sdk.AccAddressFromBech32(provider); err != nil {
+			return errorsmod.Wrapf(sdkerrors.ErrInvalidAddress, "invalid provider %s", provider)
+		}
+	}
+	return nil
+}
+
 // ValidateServiceName verifies whether the service name is legal
 func ValidateServiceName(serviceName string) error {
 	return exported.ValidateServiceName(serviceName)
